@@ -5,7 +5,9 @@ with Qeq_bool): every customer's arrival / service-start / exit date, and the no
 (time_left, with_server, end dates, date_last_update, last_occupancy) after the last event
 of every instant.  For capacity = infinity and threshold = 1 a twin run with a plain
 single-server ciw.Node is compared with the Lindley model and the instants at which the two
-nodes empty must coincide."""
+nodes empty must coincide.  A second family of cases runs small networks (PS and ordinary
+nodes, feedback, two classes) on exact rationals and checks every PS node in them against the
+same model, the node's accept log being the arrival list."""
 import random, hashlib, json, traceback
 from fractions import Fraction as F
 from framework import Prop
@@ -256,11 +258,15 @@ class C19(Prop):
     id = 'C19'
     num = 19
     regions = {'quick': []}
-    rule = ('one case = one input of a single PS node (capacity, threshold, <= 12 (thorough: <= 30) arrivals with integer '
-            'inter-arrival draws and Fraction work requirements) run through the real ciw.PSNode on exact rationals under two '
-            'tie-break seeds and compared exactly with the extracted Gallina model (dates of every customer and the node slice at '
-            'every instant); for capacity inf / threshold 1 also a twin run of ciw.Node with one server. non-trivial = the number of '
-            'customers in service changed >= 3 times strictly inside one customer\'s service; distinct = distinct inputs (hash)')
+    rule = ('one case = (a) one input of a single PS node (capacity 1..4 or inf, threshold in {1/2,1,3/2,2,5/2,3}, <= 12 (thorough: <= 30) '
+            'arrivals with integer inter-arrival draws and Fraction work requirements) run through the real ciw.PSNode on exact rationals '
+            'under two tie-break seeds and compared exactly with the extracted Gallina model: dates of every customer and the node slice '
+            '(time_left, with_server, end dates, last update, last_occupancy) after the last event of every instant; for capacity inf / '
+            'threshold 1 also a twin run of ciw.Node with one server (Lindley model, emptying instants); or (b) one network of 1-4 nodes '
+            '(PS and ordinary nodes, 1-2 classes, feedback routing incl. self loops, no blocking) run on exact rationals, where each PS '
+            "node's accept log is the model's arrival list (one id per visit) and each of its records must carry the model's dates, and "
+            'every model departure before the horizon must have a record. non-trivial = the number of customers in service changed >= 3 '
+            "times strictly inside one customer's service; distinct = distinct inputs (hash)")
     clause_text = {190: 'a customer of the implementation is unknown to the model / number of records differs from the number of arrivals',
                    191: 'arrival date differs from the model', 192: 'service start date differs from the model (capacity / FCFS clause)',
                    193: 'exit date differs from the model (rate / work clause)',
